@@ -366,6 +366,27 @@ def run(ctx):
                 viol.append({"signature": "modellist-variances-length", "message": f"model list with {d} inputs / {m} objectives: variances shape {np.shape(var)}, lengthscales shape {np.shape(ls)}", "replay": {"kind": "list", "d": d, "m": m}})
         except Exception as e:
             viol.append({"signature": "modellist-variances-length", "message": f"model list with {d} inputs / {m} objectives: get_lengthscale_and_var raised {type(e).__name__}", "replay": {"kind": "list", "d": d, "m": m}})
+    # models holding no samples predict their prior, for every noise form (scalar, diagonal and full task-noise matrix)
+    from vopy.models import IndependentExactGPyTorchModel
+    for kind, cls in (("indep", IndependentExactGPyTorchModel), ("list", GPyTorchModelListExactModel)):
+        for nz in ((0.1,) if kind == "list" else (0.1, np.eye(2) * 0.05, np.eye(2) * 0.05 + 0.01)):
+            for hist in (("update",), ("add", "update", "clear", "update")):
+                mdl = cls(3, 2, nz)
+                rs = np.random.RandomState(5)
+                for op in hist:
+                    if op == "add":
+                        if kind == "list":
+                            for k in range(2):
+                                mdl.add_sample(rs.rand(2, 3), rs.randn(2), k)
+                        else:
+                            mdl.add_sample(rs.rand(2, 3), rs.randn(2, 2))
+                    elif op == "clear":
+                        mdl.clear_data()
+                    else:
+                        mdl.update()
+                for N in (1, 3):
+                    st["predictions"] += 1
+                    check_predict(mdl, kind, rs.rand(N, 3), viol, f"{cls.__name__} holding no samples (noise {'scalar' if np.ndim(nz) == 0 else 'matrix ' + str(np.asarray(nz).tolist())}) after {list(hist)}")
     factories(ctx, viol, st)
     run_exact(ctx, viol, st)
     return {"evaluations": sum(st.values()), "distinct_nontrivial": st["history_ops"] + st["predictions"], "traces": 18 if ctx.quick else 180,
